@@ -880,6 +880,28 @@ fn main() {
             r.t_out = vec![t_out(), t_out()];
             ps.push(r);
         }
+        // hand-made: a version proposed while the builder is still empty, THEN a real output in a
+        // pool that version cannot carry, on the direct `build` path (correct code refuses before
+        // proving, so this costs nothing unless the late check is missing)
+        let sh_out = || kit::ShOut { ovk: Some((0, zip32::Scope::External)), acct: 1, scope: zip32::Scope::External, div: 0, value: 40_000, memo: vec![], change: false };
+        {
+            let mut r = base_request(lo);
+            r.version = Some(Ver::V4);
+            r.version_first = true;
+            r.orchard_anchor = true;
+            r.t_in = vec![t_in(&mut rng)];
+            r.o_out = vec![sh_out()];
+            ps.push(r);
+        }
+        if lo >= H_NU6_3 {
+            let mut r = base_request(lo + 1);
+            r.version = Some(Ver::V5);
+            r.version_first = true;
+            r.ironwood_anchor = true;
+            r.t_in = vec![t_in(&mut rng)];
+            r.i_out = vec![sh_out()];
+            ps.push(r);
+        }
         for r in ps {
             c.r.count("handmade_probes", 1);
             run_case(&mut c, &mut rng, Path::Proved, r);
